@@ -31,7 +31,13 @@ class Cfg:
         if self.fam == 6:
             return []
         pf = SPEC_DEFAULT_PREFIXES if self.prefixes is None else self.prefixes
-        return [net_bits(p) for p in list(pf) + list(self.nets or [])]
+        # `fmt.format(int(network_address))[:prefixlen]` with the 32-bit format, whatever the family of the entry: an IPv6
+        # entry gives the leading bits of its unpadded binary spelling
+        out = []
+        for p in list(pf) + list(self.nets or []):
+            n = ipaddress.ip_network(p, strict=False)
+            out.append(format(int(n.network_address), "032b")[: n.prefixlen])
+        return out
 
     def describe(self):
         return {"family": self.fam, "salt": self.salt, "host_bits": self.B, "preserve_prefixes": self.prefixes,
